@@ -166,6 +166,17 @@ func (c *FileCache[MetadataT]) Get(key CacheKey) (*Entry[MetadataT], error) {
 	}
 	// We don't close dataFile here since we are returning it in the Entry.
 
+	// What is handed out has to be the body that was stored: a file that is not a regular file of
+	// the recorded size (cut short or replaced behind our back) is as unreadable as a missing one,
+	// and said to be so now, while the caller can still turn to the origin, instead of in the middle
+	// of a response whose head promises the recorded length.
+	if info, statErr := dataFile.Stat(); statErr != nil || !info.Mode().IsRegular() || info.Size() != entryMeta.Size {
+		dataFile.Close()
+		metrics.Global.Cache.CacheErrors.Increment()
+		slog.Error("Cached data file does not hold the stored body", "key", key.Hex, "recorded_size", entryMeta.Size, "error", statErr)
+		return nil, fmt.Errorf("%w: cached data file '%s' does not hold the stored body", ErrCacheFileRead, fileName)
+	}
+
 	stale := false
 	if entryMeta.Expires.Before(time.Now()) {
 		stale = true // The entry is stale if the expiration time is in the past
